@@ -541,3 +541,19 @@ def min_over_hull(f, grad, V):
     g = grad(best)
     low = float(f(best) + np.min((V - best) @ g))
     return best, float(f(best)), low
+
+
+def box_lsq_bounds(G, b, lo, hi, w=None, c0=None, max_enum=6):
+    """(upper, x, lower): `upper` = residual of a feasible point x (an upper bound of the optimum, exact for n <= max_enum),
+    `lower` = a rigorous lower bound of the optimum (equal to `upper` when enumerated; 0 when no certificate is available).
+    Use `upper` to show that a returned fit is NOT optimal, `lower` to show that a target is NOT reproducible."""
+    n = np.asarray(G).shape[1]
+    if n <= max_enum:
+        v, x = box_lsq(G, b, lo, hi, w=w, c0=c0)
+        return v, x, v
+    if np.all(np.isfinite(hi)):
+        return box_lsq_certified(G, b, lo, hi, w=w, c0=c0)
+    # unbounded box with many sources: bounded surrogate for the candidate (feasible for the original problem), no certificate
+    hi2 = np.where(np.isfinite(hi), hi, lo + 1e3)
+    v, x, _ = box_lsq_certified(G, b, lo, hi2, w=w, c0=c0)
+    return v, x, 0.0
